@@ -328,11 +328,18 @@ class Scen(srvlib.HistGen):
             elif x < 0.97 and not (relays and r.randrange(2)):
                 self.nreq(s, r.choice([F, 0, 1, 300]))
             else:
-                if lazy:
+                if lazy and r.randrange(2):
                     # held query repeated at once: remembered as duplicate (without source checking also through another relay)
                     self.ping_x(s)
                     self.redeliver(s, back=1, newaddr=(not self.check_ip and r.randrange(2) == 0))
                     self.cstats['pending_dup'] += 1
+                elif lazy:
+                    # a held ping is pushed into the "answer real soon" place by a complete upstream packet and repeated before the
+                    # 20 ms sweep answers it: the repeat is a duplicate of THAT query, not of the data query now held
+                    self.ping_x(s)
+                    self.data_x(s, self.upstream_ip(r.choice([24, 40])), last=True)
+                    self.redeliver(s, back=2)
+                    self.cstats['pending_dup_realsoon'] = self.cstats.get('pending_dup_realsoon', 0) + 1
             self.tick()
         return self.line()
 
